@@ -31,6 +31,7 @@ const (
 	faultNone   = 0
 	faultAbsent = 1 // Read returns an error
 	faultDecode = 2 // Read succeeds, DecodeRawEntry returns an error
+	faultHung   = 3 // Read blocks until the context is done (only used with a timeout), then fails
 )
 
 type memAPI struct {
@@ -43,6 +44,7 @@ type memAPI struct {
 	failWrites int            // the n-th write (1-based) fails; 0 = never
 	writes     int
 	onWrite    func(api *memAPI, hash string, obj interface{})
+	gated      bool // reads go through vx.Gate (schedule replay of fetch completion orders)
 }
 
 func newMemAPI() *memAPI {
@@ -80,11 +82,21 @@ func (io *atomIO) Write(_ context.Context, _ coreiface.CoreAPI, obj interface{},
 	return c, nil
 }
 
-func (io *atomIO) Read(_ context.Context, _ coreiface.CoreAPI, c cid.Cid) (format.Node, error) {
+func (io *atomIO) Read(rctx context.Context, _ coreiface.CoreAPI, c cid.Cid) (format.Node, error) {
 	api := io.api
 	vx.Atomic(func() { api.reads = append(api.reads, c.String()) })
 	if api.fault[c.String()] == faultAbsent {
+		if api.gated {
+			vx.Gate(vx.CidKey(c))
+		}
 		return nil, errors.New("block not found")
+	}
+	if api.fault[c.String()] == faultHung {
+		<-rctx.Done()
+		return nil, rctx.Err()
+	}
+	if api.gated {
+		vx.Gate(vx.CidKey(c))
 	}
 	if _, ok := api.entries[c.String()]; ok {
 		return &memNode{c: c}, nil
